@@ -21,11 +21,11 @@ const (
 
 type hEnv struct {
 	*vEnv
-	k                            Keeper
-	deputy, user, other          sdk.AccAddress
-	asset                        types.AssetParam
-	incoming, outgoing, current  sdkmath.Int
-	tlCurrent                    sdkmath.Int
+	k                           Keeper
+	deputy, user, other         sdk.AccAddress
+	asset                       types.AssetParam
+	incoming, outgoing, current sdkmath.Int
+	tlCurrent                   sdkmath.Int
 }
 
 // newHEnv: one HTLT asset with symbolic (validated) parameters and a symbolic supply record
